@@ -847,13 +847,16 @@ def main(argv) -> int:
     deadline = chk.t0 + budget * 0.7
     hard_deadline = chk.t0 + budget * 0.9
 
+    mandatory = {id(meta) for meta in histories[:10]}  # one of each kind, always run
+
     def guarded(meta: Dict[str, Any]) -> None:
-        if time.time() > deadline:
+        must = id(meta) in mandatory
+        if time.time() > deadline and not must:
             with lock:
                 chk.count("histories_skipped_for_budget")
             return
         try:
-            run_history(chk, meta, reference, lock, hard_deadline)
+            run_history(chk, meta, reference, lock, hard_deadline if not must else float("inf"))
             with lock:
                 chk.count("histories_run")
                 chk.hist("history_kinds", meta["kind"] + ("/" + meta["edit"] if "edit" in meta else ""))
